@@ -623,6 +623,21 @@ run_seq(const Plan& p, sim::Result& res)
               apply_config(pr);
               H->set_zero_seg0_end_planes(pr.zero_end);
             }
+          else if (op.kind == "cfg_data")
+            {
+              // other measured data of the same geometry handed to the same object (next frame / next gate)
+              sim::Rng dr(sim::mix(p.seed, 9000 + (uint64_t)step));
+              pr.y.reset(new ProjDataInMemory(pr.exam, pr.pdi));
+              for (auto& row : pr.rows)
+                {
+                  row.y = row.el.empty() ? 0. : std::floor(row.y * (0.3 + 1.4 * dr.unit()) + (dr.chance(0.2) ? 1. : 0.) + 0.5);
+                  Bin bb = row.bin;
+                  bb.set_bin_value((float)row.y);
+                  pr.y->set_bin_value(bb);
+                }
+              H->set_proj_data_sptr(pr.y);
+              sim::probe("measured_data_replaced_on_same_object");
+            }
           else if (op.kind == "cfg_max_tof")
             {
               // the TOF range: whatever the object reports as its range after set_up is the range all four quantities must use
@@ -782,8 +797,8 @@ gen(uint64_t seed, const std::string& tier, long idx)
         o.kind = "subsets";
       else if (k < 23)
         {
-          static const char* cfgs[] = { "cfg_norm", "cfg_additive", "cfg_zero_end", "cfg_max_seg", "cfg_max_tof" };
-          o.kind = cfgs[r.below(5)];
+          static const char* cfgs[] = { "cfg_norm", "cfg_additive", "cfg_zero_end", "cfg_max_seg", "cfg_max_tof", "cfg_data" };
+          o.kind = cfgs[r.below(6)];
         }
       else
         o.kind = kinds[r.below(sizeof kinds / sizeof *kinds)];
